@@ -1,5 +1,6 @@
 import Qats.Lemmas.W2GMain
 import Qats.Lemmas.StatsMain
+import Qats.Lemmas.MomentsMain
 /-!
 # C17 — the extreme-value chain from peaks to quantiles is coherent
 
@@ -63,6 +64,100 @@ theorem summary_affine (rnd : ℝ → Int) (sd dur a b : ℝ) (ha : 0 < a) (qs x
              gloc := a * s.gloc + b, gscale := a * s.gscale,
              pvalues := s.pvalues.map fun v => a * v + b, sample := s.sample.map fun v => a * v + b } :=
   summary_affine' rnd sd dur a b ha qs x s h h4 hden hden2
+
+
+/-! ### the descriptive half of the statistics summary (`Qats.Moments.describe`: start / end / duration / dtavg / mean / std /
+skew / kurt / min / max / tz of `TimeSeries.stats`)
+
+`eps` is scipy's degenerate-sample threshold factor (`m2 ≤ (eps·mean)²` → skew = kurt = nan): `2^-52` in the implementation,
+`0` in exact arithmetic.  The consistency clauses hold for every `eps`; the equivariance clauses are stated at `eps = 0`
+(unconditionally) and for an arbitrary `eps` under the hypothesis that the test answers the same for both signals. -/
+section Descriptive
+variable {α : Type} [Field α] [LinearOrder α] [IsStrictOrderedRing α] [TranscOps α]
+
+/-- min ≤ mean for every non-empty series (any linearly ordered field, any `eps`). -/
+theorem summary_min_le_mean (eps : α) (t x : List α) (d : Moments.Desc α) (h : Moments.describe eps t x = some d) :
+    d.min ≤ d.mean :=
+  Moments.summary_min_le_mean' eps t x d h
+
+/-- mean ≤ max for every non-empty series. -/
+theorem summary_mean_le_max (eps : α) (t x : List α) (d : Moments.Desc α) (h : Moments.describe eps t x = some d) :
+    d.mean ≤ d.max :=
+  Moments.summary_mean_le_max' eps t x d h
+
+/-- duration = end − start, where start / end are the first / last time sample. -/
+theorem summary_duration (eps : α) (t x : List α) (d : Moments.Desc α) (h : Moments.describe eps t x = some d) :
+    d.duration = d.stop - d.start ∧ t.head? = some d.start ∧ t.getLast? = some d.stop :=
+  Moments.summary_duration' eps t x d h
+
+/-- The mean step times (n − 1) is the duration (telescoping sum), for n ≥ 2 samples — whatever the sampling. -/
+theorem summary_dtavg (eps : α) (t x : List α) (d : Moments.Desc α) (h : Moments.describe eps t x = some d)
+    (hn : 2 ≤ t.length) :
+    ∃ v, d.dtavg = some v ∧ v * ((t.length : α) - 1) = d.duration :=
+  Moments.summary_dtavg' eps t x d h hn
+
+/-- The fields computed with field operations only under `x ↦ a·x + b`, `a > 0`, over any linearly ordered field: mean and
+min / max map as `a·v + b`, the variance (std²) as `a²·v`; kurtosis and the mean up-crossing period are unchanged. -/
+theorem moments_affine_field (a b : α) (ha : 0 < a) (t : List α) (x0 : α) (xr : List α) :
+    Peaks.mean ((x0 :: xr).map fun v => a * v + b) = a * Peaks.mean (x0 :: xr) + b ∧
+    Moments.tvar ((x0 :: xr).map fun v => a * v + b) = (Moments.tvar (x0 :: xr)).map (fun v => a ^ 2 * v) ∧
+    Moments.kurt 0 ((x0 :: xr).map fun v => a * v + b) = Moments.kurt 0 (x0 :: xr) ∧
+    Moments.minL (a * x0 + b) (xr.map fun v => a * v + b) = a * Moments.minL x0 xr + b ∧
+    Moments.maxL (a * x0 + b) (xr.map fun v => a * v + b) = a * Moments.maxL x0 xr + b ∧
+    Moments.tz t ((x0 :: xr).map fun v => a * v + b) = Moments.tz t (x0 :: xr) :=
+  Moments.moments_affine_field' a b ha t x0 xr
+
+end Descriptive
+
+/-- Affine equivariance of the descriptive summary (exact arithmetic, every series, every length): under `x ↦ a·x + b`,
+`a > 0`, mean / min / max map as `a·v + b`, std as `a·v`; skew, kurt, tz, start, end, duration, dtavg are unchanged
+(`nan` fields stay `nan`: std for n = 1, skew / kurt for a constant signal, tz with fewer than two up-crossings). -/
+theorem summary_affine_desc (a b : ℝ) (ha : 0 < a) (t x : List ℝ) (d : Moments.Desc ℝ)
+    (h : Moments.describe 0 t x = some d) :
+    Moments.describe 0 t (x.map fun v => a * v + b) =
+      some { d with mean := a * d.mean + b, std := d.std.map fun v => a * v, min := a * d.min + b,
+                    max := a * d.max + b } :=
+  Moments.summary_affine_desc' a b ha t x d h
+
+/-- The same for scipy's actual threshold factor `eps`, whenever the degenerate-sample test answers the same for the two
+signals (it does not in general: `(eps·mean)²` is not shift-invariant, so a nearly constant signal can get `nan` before and a
+number after the map — rounding noise either way). -/
+theorem summary_affine_desc_eps (eps a b : ℝ) (ha : 0 < a) (t x : List ℝ) (d : Moments.Desc ℝ)
+    (h : Moments.describe eps t x = some d)
+    (hz : Moments.isZero eps (x.map fun v => a * v + b) = Moments.isZero eps x) :
+    Moments.describe eps t (x.map fun v => a * v + b) =
+      some { d with mean := a * d.mean + b, std := d.std.map fun v => a * v, min := a * d.min + b,
+                    max := a * d.max + b } :=
+  Moments.summary_affine_desc_eps' eps a b ha t x d h hz
+
+/-- Mirror `x ↦ −x` (exact arithmetic): mean and skew negate, std and kurt are unchanged, min / max swap with the sign, the
+time fields are unchanged.  `tz` is deliberately absent: it counts UP-crossings of the mean level, which the mirror turns into
+strict down-crossings — a different set of instants (example below). -/
+theorem summary_mirror_desc (t x : List ℝ) (d : Moments.Desc ℝ) (h : Moments.describe 0 t x = some d) :
+    ∃ d', Moments.describe 0 t (x.map fun v => -v) = some d' ∧
+      d'.mean = -d.mean ∧ d'.std = d.std ∧ d'.skew = d.skew.map (fun v => -v) ∧ d'.kurt = d.kurt ∧
+      d'.min = -d.max ∧ d'.max = -d.min ∧
+      d'.start = d.start ∧ d'.stop = d.stop ∧ d'.duration = d.duration ∧ d'.dtavg = d.dtavg :=
+  Moments.summary_mirror_desc' t x d h
+
+/-- Non-vacuity: a series with a summary, at least two samples, a positive factor, and a pair of signals on which the
+degenerate-sample test agrees. -/
+example : (∃ d, Moments.describe (0 : ℝ) [0, 1, 3] [1, 2, 4] = some d) ∧ 2 ≤ ([0, 1, 3] : List ℝ).length ∧ (0 : ℝ) < 2 ∧
+    Moments.isZero (0 : ℝ) (([1, 2, 4] : List ℝ).map fun v => 2 * v + 1) = Moments.isZero (0 : ℝ) ([1, 2, 4] : List ℝ) :=
+  ⟨⟨_, rfl⟩, by simp, by norm_num, Moments.isZero_zero_affine (2 : ℝ) 1 (by norm_num) _⟩
+
+/-- Worked example (exact, checked by the kernel; the implementation returns the same numbers: mean 2, std² 2.5, kurt 1.8,
+min 0, max 4, dtavg 1.25, tz 2) and the mirror counter-example for `tz`: on a uniform time grid the signal below has mean
+up-crossing period 3, its mirror image 2. -/
+example :
+    Peaks.mean ([1, 3, 0, 4, 2] : List Rat) = 2 ∧ Moments.tvar ([1, 3, 0, 4, 2] : List Rat) = some (5 / 2) ∧
+    Moments.kurt 0 ([1, 3, 0, 4, 2] : List Rat) = some (9 / 5) ∧ Moments.minL (1 : Rat) [3, 0, 4, 2] = 0 ∧
+    Moments.maxL (1 : Rat) [3, 0, 4, 2] = 4 ∧ Moments.dtavg ([0, 1, 2, 3, 5] : List Rat) = some (5 / 4) ∧
+    Moments.tz ([0, 1, 2, 3, 5] : List Rat) [1, 3, 0, 4, 2] = some 2 ∧
+    Moments.kurt 0 ([7, 7, 7, 7] : List Rat) = none ∧
+    Moments.tz ([0, 1, 2, 3, 4, 5, 6, 7] : List Rat) [-1, 1, 1, -1, 1, -1, -1, 1] = some 3 ∧
+    Moments.tz ([0, 1, 2, 3, 4, 5, 6, 7] : List Rat) (([-1, 1, 1, -1, 1, -1, -1, 1] : List Rat).map fun v => -v) = some 2 := by
+  decide +kernel
 
 
 end Qats.Props.C17
